@@ -813,6 +813,21 @@ void Run::exec_step(const Step &s) {
   steps_done++;
   W.mix_shape(0x5700 + (uint64_t)s.k);
   int chan = 0;
+  // plan-level disturbances, counted per kind for the evidence file (socket-call and network faults are counted where they fire)
+  switch (s.k) {
+    case S_STALL: W.bump(s.a < 0 || s.a >= 60000 ? "fault_fired.clock_jump_minutes_to_days" : "fault_fired.application_stall"); break;
+    case S_CANCEL: W.bump("fault_fired.cancel_all_in_flight"); break;
+    case S_FORGE: W.bump("fault_fired.forged_or_stale_packet"); break;
+    case S_SETSRV: W.bump("fault_fired.server_list_edit_in_flight"); break;
+    case S_REINIT: W.bump("fault_fired.reinit_in_flight"); break;
+    case S_CHUNK: W.bump("fault_fired.tcp_stream_rechunked"); break;
+    case S_SRCADDR: W.bump("fault_fired.source_address_change"); break;
+    case S_COOKIECTL: W.bump("fault_fired.server_cookie_support_toggled"); break;
+    case S_FILE: W.bump("fault_fired.config_file_rewritten"); break;
+    case S_INOTIFY: W.bump("fault_fired.config_change_notification"); break;
+    case S_HEAL: W.bump("fault_fired.partition_healed"); break;
+    default: break;
+  }
   switch (s.k) {
     case S_REQ: if (pre_req && pre_req(*this, s)) break; submit(pick_kind(s.a), (int)s.b, (int)s.c, (int)(s.d % R_NREACT), (int)(s.d / R_NREACT), false, chan, (int)(s.d / (R_NREACT * K_NKINDS) + s.c / 7)); break;
     case S_CANCEL: do_cancel(chan); break;
